@@ -289,10 +289,25 @@ Proof.
 Qed.
 
 Lemma shutdown_idempotent_l o s :
-  let s1 := fst (step o s LShutdownCall) in step o s1 LShutdownCall = (s1, []).
+  let s1 := fst (step o s LShutdownCall) in
+  fst (step o s1 LShutdownCall) = s1 /\ count is_close_chan (snd (step o s1 LShutdownCall)) = 0.
 Proof.
   destruct s as [ph p lv g op cc cl sg w asy cx pv]. simpl.
-  destruct ph; simpl; auto; unfold shut_close, shut_check; simpl; destruct cc; simpl; reflexivity.
+  destruct ph; simpl; auto; unfold shut_close, shut_check; simpl; destruct cc; simpl; auto.
+Qed.
+
+(* the recover() in Shutdown() is load-bearing: two callers that both pass the state check before
+   either closes (or simply two calls one after the other while Running) make the second close hit
+   a closed channel *)
+Lemma recover_exercised_l :
+  (exists o ls, ls = [LShutCheck; LShutCheck; LShutClose; LShutClose] /\
+                count is_recovered (snd (run o init ls)) = 1 /\ count is_close_chan (snd (run o init ls)) = 1) /\
+  (forall o s, (st_phase s = Running \/ st_phase s = Starting) -> st_chan_closed s = true ->
+               snd (step o s LShutdownCall) = [ARecovered]).
+Proof.
+  split.
+  - exists (mkOracle (fun _ => mkCfg 1 0 BOk []) false). eexists; split; [reflexivity|]. vm_compute. auto.
+  - intros o s [H|H] C; simpl; rewrite H; unfold shut_close, shut_check; rewrite H; simpl; rewrite C; reflexivity.
 Qed.
 
 Lemma shutdown_only_closes_l o s :
@@ -346,7 +361,7 @@ Proof.
   assert (st_pc s1 = PStuck /\ count is_return a1 = 0) as [H1 H2].
   { destruct (is_run l) eqn:ER.
     - destruct l; try discriminate. simpl in E1. unfold run_step in E1. rewrite H in E1. inversion E1; subst. auto.
-    - destruct (env_step_shape o s l s1 a1 E1 ER) as [[->| ->] [_ [_ K]]]; rewrite K; auto. }
+    - destruct (env_step_shape o s l s1 a1 E1 ER) as [[->|[->| ->]] [_ [_ K]]]; rewrite K; auto. }
   destruct (IH s1 H1) as [J1 J2]. destruct (run o s1 r) as [s2 a2]. simpl in *.
   split; auto. rewrite count_app. lia.
 Qed.
